@@ -204,8 +204,41 @@ func ruleR20b(c *Ctx, r *Report) {
 			bad = "expected one NewWritable and one os.OpenFile"
 		} else {
 			a := nw[0].Common().Args
+			// dcw.f read back behind the store of the file just opened is the opened file — on every
+			// path: a read that a path reaches without passing the store sees whatever an earlier,
+			// failed attempt left there
+			var fStores []*ssa.Store
+			eachInstr(wfn, func(in ssa.Instruction) {
+				st, ok := in.(*ssa.Store)
+				if !ok {
+					return
+				}
+				fa, ok := st.Addr.(*ssa.FieldAddr)
+				if !ok || !fieldAddrIs(fa, pkgDeferred, "DeferredCarWriter", "f") {
+					return
+				}
+				for _, o := range origins(st.Val, originOpts{}) {
+					if !(o.Kind == "call" && funcIs(o.Fn, "os", "", "OpenFile")) {
+						return
+					}
+				}
+				fStores = append(fStores, st)
+			})
+			fIsOpenedAt := func(v ssa.Value) bool {
+				in, ok := v.(ssa.Instruction)
+				if !ok {
+					return false
+				}
+				for _, st := range fStores {
+					if st.Block() == in.Block() && instrBefore(st, in) || st.Block() != in.Block() && st.Block().Dominates(in.Block()) {
+						return true
+					}
+				}
+				return false
+			}
 			for _, o := range origins(a[0], originOpts{}) {
-				ok := (o.Kind == "field" && o.Field != nil && o.Field.Name() == "outStream") || (o.Kind == "call" && funcIs(o.Fn, "os", "", "OpenFile")) || (o.Kind == "const" && isNilConst(o.Val))
+				ok := (o.Kind == "field" && o.Field != nil && o.Field.Name() == "outStream") || (o.Kind == "call" && funcIs(o.Fn, "os", "", "OpenFile")) || (o.Kind == "const" && isNilConst(o.Val)) ||
+					(o.Kind == "field" && o.Field != nil && o.Field.Name() == "f" && fIsOpenedAt(o.Val))
 				if !ok {
 					bad = "the CAR writer is not built over the caller's stream or the file opened from the caller's path"
 				}
